@@ -92,8 +92,21 @@ def handleHistory (case : Nat) (j : Json) : IO Unit := do
   emit case true spec branch sig
     (if spec then "" else s!"history {jstr (jget set "id")} ({jstr (jget set "engine")}, profile {jstr (jget set "profile")}, {jstr (jget set "balancer")}, stream buffer {jnat (jget set "stream_buffer_size")}, GOMAXPROCS {jnat (jget set "gomaxprocs")}), step {jnat (jget st "idx")} of {jnat (jget j "steps_in_history")} (round {jnat (jget st "round")}): {jstr (jget st "desc")}: reached {jstrList (jget st "order")}, client status {cStatus} err '{cErr}' holds {cBody.length} bytes beginning {reprStr (String.fromUTF8! (ByteArray.mk (cBody.take 48).toArray))}; the steps before it on this instance are in the case (before)")
 
+/-- kind "slowreader": one attempt, a backend that never pauses, a client that sits idle for several read timeouts in the
+    middle of a large body and then reads on.  The attempt completed, so the client holds its body whole
+    (`Spec.C02.wholeWhenCompleted`, `C02_served_whole`): the read timeout is about the backend's silence, not the client's. -/
+def handleSlowReader (case : Nat) (j : Json) : IO Unit := do
+  let impl := jget j "impl"
+  if jstr (jget impl "start_err") != "" then
+    emit case false true "start-error" "" (jstr (jget impl "start_err")); return
+  let ok := jbool (jget impl "whole") && jnat (jget impl "status") == 200
+  emit case ok ok s!"slowreader.{jstr (jget j "engine")}" (if ok then "" else "response-not-whole-though-attempt-completed")
+    (if ok then "" else s!"{jstr (jget j "engine")}, read timeout {jnat (jget impl "read_timeout_ms")} ms, the backend writes {jnat (jget impl "size")} bytes without a pause, the client reads 32 KiB, sits idle {jnat (jget impl "pause_ms")} ms and reads on: status {jnat (jget impl "status")}, {jnat (jget impl "got")} bytes received, err '{jstr (jget impl "err")}'")
+
 def handle (j : Json) : IO Unit := do
   let case := jnat (jget j "case")
+  if jstr (jget j "kind") == "slowreader" then
+    handleSlowReader case j; return
   if jstr (jget j "kind") == "history" then
     handleHistory case j; return
   if jstr (jget j "kind") == "xroute" then
